@@ -106,7 +106,7 @@ func ruleC03R1(c *Ctx) {
 	// recovered chunks: counted only when enqueued
 	rec := c.P.Fn(aBufRecover)
 	var rsel *ssa.Select
-	eachInstr(rec, func(in ssa.Instruction) {
+	c.eachInstrR(rec, func(in ssa.Instruction) {
 		if s, ok := in.(*ssa.Select); ok {
 			for _, st := range s.States {
 				if st.Dir == types.SendOnly && fieldOf(st.Chan) == fBufIn {
@@ -117,9 +117,14 @@ func ruleC03R1(c *Ctx) {
 	})
 	okRec := false
 	if rsel != nil {
+		// the count stands in the enqueue-success case of the select (in recoverExistingChunks or the private helper
+		// that holds the select)
 		cb := selectCaseBlock(rsel, 0)
-		calls := c.callsTo(rec, anchorPred(aOnInputRec))
-		okRec = len(calls) == 1 && cb != nil && (calls[0].Block() == cb || cb.Dominates(calls[0].Block()))
+		calls := c.sitesWhereR(rec, func(s ssa.CallInstruction) bool {
+			f := s.Common().StaticCallee()
+			return f != nil && isAnchor(f, aOnInputRec)
+		})
+		okRec = len(calls) == 1 && cb != nil && calls[0].Parent() == rsel.Parent() && (calls[0].Block() == cb || cb.Dominates(calls[0].Block()))
 	}
 	c.check(okRec, "C03.R1", rec, "recovered chunk counted iff enqueued", rec.Pos(), "OnChunkInputRecovered is called only in the enqueue-success case", "a recovered chunk is counted without being enqueued (or not counted)")
 }
@@ -467,14 +472,100 @@ func ruleC03R5(c *Ctx) {
 	_ = sendIdx
 	// Run: chunk in hand stored exactly when loadToOutput returned false
 	run := c.P.Fn(aFeederRun)
-	lt := c.callsTo(run, anchorPred(aLoadToOut))
+	isCallee := func(name string) func(ssa.CallInstruction) bool {
+		return func(s ssa.CallInstruction) bool {
+			f := s.Common().StaticCallee()
+			return f != nil && isAnchor(f, name)
+		}
+	}
+	lt := c.sitesWhereR(run, isCallee(aLoadToOut))
 	if len(lt) != 1 {
-		c.bad("C03.R5", run, "chunk in hand kept on abort", run.Pos(), "expected one loadToOutput call in Run")
+		c.bad("C03.R5", run, "chunk in hand kept on abort", run.Pos(), "expected one loadToOutput call in the feeder's Run (or its private helpers)")
 		return
 	}
 	fe := boolEdges(lt[0].Value(), false)
+	if loopFn := lt[0].Parent(); loopFn != run && len(c.sitesWhereR(loopFn, isCallee(aSaveAll))) == 0 {
+		// The feed loop stands in a private helper that hands the chunk in hand back to Run: what the helper returns is
+		// the zero chunk or the received chunk, the latter exactly via the 'aborted' edge of loadToOutput, and Run passes
+		// the helper's result on to saveEverything.
+		recvd := func(v ssa.Value) bool {
+			return mentions(v, func(x ssa.Value) bool {
+				u, ok := x.(*ssa.UnOp)
+				return ok && u.Op == token.ARROW && fieldOf(u.X) == fFeedIn
+			})
+		}
+		okKeep, why := true, ""
+		for _, rv := range returnedValues(loopFn, 0) {
+			if _, isK := strip(rv.Val).(*ssa.Const); isK {
+				continue
+			}
+			if isZeroStruct(rv.Val) {
+				continue
+			}
+			if !recvd(rv.Val) {
+				okKeep, why = false, "the chunk handed back by "+anchorName(loopFn)+" is not the chunk received from inputChannel"
+				continue
+			}
+			via := false
+			for b, si := range fe {
+				if c.onlyViaEdge(loopFn, rv.At, b, si) {
+					via = true
+				}
+			}
+			if !via {
+				okKeep, why = false, "the received chunk is handed back on a path where loadToOutput did not report 'aborted' (it was already resolved)"
+			}
+		}
+		for b, si := range fe {
+			q := &PathQ{P: c.P}
+			if hit, _ := q.Reach(succPoint(b, si), func(in ssa.Instruction) bool {
+				if in == lt[0].(ssa.Instruction) {
+					return true
+				}
+				r, ok := in.(*ssa.Return)
+				return ok && len(r.Results) > 0 && !recvd(r.Results[0])
+			}); hit != nil {
+				okKeep, why = false, "after an aborted output the chunk in hand is not handed back (the loop continues or a zero chunk is returned)"
+			}
+		}
+		// Run: the helper's result reaches saveEverything
+		flows := false
+		for _, sv := range c.sitesWhereR(run, isCallee(aSaveAll)) {
+			if len(sv.Common().Args) < 2 {
+				continue
+			}
+			v := resolve(sv.Common().Args[1])
+			for hops := 0; hops < 3; hops++ {
+				prm, isP := v.(*ssa.Parameter)
+				if !isP {
+					break
+				}
+				idx := -1
+				for i, q := range prm.Parent().Params {
+					if q == prm {
+						idx = i
+					}
+				}
+				sites := c.callsIn2(run, prm.Parent())
+				if len(sites) != 1 || idx < 0 || idx >= len(sites[0].Common().Args) {
+					break
+				}
+				v = resolve(sites[0].Common().Args[idx])
+			}
+			if cl, ok := v.(*ssa.Call); ok && cl.Common().StaticCallee() == loopFn {
+				flows = true
+			}
+		}
+		if !flows {
+			okKeep, why = false, "the chunk handed back by "+anchorName(loopFn)+" does not reach saveEverything"
+		}
+		c.check(okKeep, "C03.R5", run, "chunk in hand kept exactly when output was aborted", lt[0].Pos(),
+			"the feed loop hands back the received chunk only via the false edge of loadToOutput, that edge always hands it back, and Run gives it to saveEverything", why)
+		return
+	}
+	run = lt[0].Parent()
 	// the variable passed to saveEverything
-	save := c.callsTo(run, anchorPred(aSaveAll))
+	save := c.sitesWhereR(run, isCallee(aSaveAll))
 	var cell *ssa.Alloc
 	if len(save) == 1 {
 		if u, ok := strip(save[0].Common().Args[1]).(*ssa.UnOp); ok {
@@ -580,12 +671,7 @@ func ruleC03R6(c *Ctx) {
 		c.floor("C03.R6", "operations on "+o.field, len(ops), 2)
 		for _, op := range ops {
 			allowed := o.kinds[op.Kind]
-			ok := false
-			for _, a := range allowed {
-				if anchorName(op.In.Parent()) == a {
-					ok = true
-				}
-			}
+			ok := ownedBy(op.In.Parent(), allowed...)
 			c.check(ok, "C03.R6", op.In.Parent(), op.Kind+" on "+o.field, op.In.Pos(),
 				"operation is in its owner {"+strings.Join(allowed, ", ")+"}", op.Kind+" on "+o.field+" outside its owner {"+strings.Join(allowed, ", ")+"}")
 		}
@@ -632,8 +718,7 @@ func ruleC03R6(c *Ctx) {
 	for _, fn := range c.P.universe {
 		for _, in := range fieldAccesses(fn, fFeedOut) {
 			n++
-			nm := anchorName(fn)
-			ok := nm == aRegConsumer || nm == aNewFeeder || nm == aLoadToOut || nm == aFeederRun || nm == aSaveAll || nm == "buffer/hybridbuffer.(*outputFeeder).NumOutput"
+			ok := ownedBy(fn, aRegConsumer, aNewFeeder, aLoadToOut, aFeederRun, aSaveAll, "buffer/hybridbuffer.(*outputFeeder).NumOutput")
 			c.check(ok, "C03.R6", fn, "access to outputFeeder.outputChannel", in.Pos(), "the in-memory window is only touched by the feeder and handed to the registered consumer", "outputChannel accessed outside the feeder")
 		}
 	}
@@ -641,7 +726,7 @@ func ruleC03R6(c *Ctx) {
 	goSites, inGo := c.feederGoSites()
 	for _, g := range goSites {
 		fn := g.Parent()
-		c.check(anchorName(fn) == aBufStart, "C03.R6", fn, "go feeder.Run", g.Pos(), "the feeder goroutine is launched only by bufferer.Start", "a second feeder goroutine would break FIFO order")
+		c.check(ownedBy(fn, aBufStart), "C03.R6", fn, "go feeder.Run", g.Pos(), "the feeder goroutine is launched only by bufferer.Start", "a second feeder goroutine would break FIFO order")
 	}
 	c.floor("C03.R6", "go feeder.Run sites", len(goSites), 1)
 	for _, s := range c.callSitesOf(anchorPred(aFeederRun)) {
@@ -1176,4 +1261,23 @@ func ruleC03R12(c *Ctx) {
 			"a chunk event can move the persistent gauges twice (or one without the other): "+strings.Join(why, "; "))
 	}
 	c.floor("C03.R12", "gauge movements seen on the enumerated paths", nSites, 4)
+}
+
+// isZeroStruct: the load of a local that is never stored to (a zero value built in place)
+func isZeroStruct(v ssa.Value) bool {
+	u, ok := strip(v).(*ssa.UnOp)
+	if !ok || u.Op != token.MUL {
+		return false
+	}
+	al, ok := u.X.(*ssa.Alloc)
+	if !ok {
+		return false
+	}
+	for _, ref := range *al.Referrers() {
+		switch ref.(type) {
+		case *ssa.Store, *ssa.FieldAddr, *ssa.IndexAddr:
+			return false
+		}
+	}
+	return true
 }
